@@ -7,15 +7,17 @@ Import ListNotations.
 Open Scope Z_scope.
 
 Definition Inv (st : tstate) (q : queue) (o : outcome) : Prop :=
-  (forall acc f, o = ODone acc f -> forall st', trun st (q_toks q) = Some st' -> tfinal st' = true) /\
+  (forall acc f, o = ODone acc f -> q_instr q = false /\ forall st', trun st (q_toks q) = Some st' -> tfinal st' = true) /\
   (forall acc n toks k, o = OSusp acc n toks k -> forall st', trun st (q_toks q) = Some st' ->
-     exists sts, trun sts toks = Some st' /\ sunf sts = true).
+     (length toks <= n)%nat /\ exists sts, trun sts toks = Some st' /\ sunf sts = true) /\
+  (forall acc f, o = OMoreTop acc f -> q_instr q = true).
 
 Definition KI (d : Z) (k : sexp -> queue -> outcome) : Prop :=
   forall e q sg, is_send e = false -> curly_plain (q_toks q) = true -> Inv (d, WFree, false, sg) q (k e q).
 
-Lemma inv_triv : forall st q o, (forall acc f, o <> ODone acc f) -> (forall acc n t k, o <> OSusp acc n t k) -> Inv st q o.
-Proof. intros st q o H1 H2; split; intros; exfalso; [eapply H1|eapply H2]; eauto. Qed.
+Lemma inv_triv : forall st q o, (forall acc f, o <> ODone acc f) -> (forall acc n t k, o <> OSusp acc n t k) ->
+  (forall acc f, o <> OMoreTop acc f) -> Inv st q o.
+Proof. intros st q o H1 H2 H3; split; [|split]; intros; exfalso; [eapply H1|eapply H2|eapply H3]; eauto. Qed.
 
 Ltac triv := apply inv_triv; intros; discriminate.
 
@@ -24,8 +26,8 @@ Lemma need_inv : forall st acc n q k,
 Proof.
   intros st acc n q k Hs H. unfold need. destruct (n <? length (q_toks q))%nat eqn:E.
   - apply H. apply Nat.ltb_lt; exact E.
-  - destruct (q_err q); [triv|]. split; intros; [discriminate|].
-    inversion H0; subst. exists st. split; assumption.
+  - destruct (q_err q); [triv|]. split; [|split]; intros; [discriminate| |discriminate].
+    inversion H0; subst. split; [apply Nat.ltb_ge; exact E|]. exists st. split; assumption.
 Qed.
 
 Lemma cp_tl : forall t r, curly_plain (t :: r) = true -> curly_plain r = true.
@@ -38,14 +40,11 @@ Proof. intros [l e i] H; simpl in *. destruct l; [exact H|eapply cp_tl; exact H]
 Lemma inv_step : forall st st1 q o, q_toks q <> [] -> tstep st (tok_at q 0) = Some st1 ->
   Inv st1 (q_tail q) o -> Inv st q o.
 Proof.
-  intros st st1 [l e i] o Hne Hs [H1 H2]; unfold tok_at in *; simpl in *. destruct l as [|t r]; [congruence|]. simpl in *.
-  split; intros; simpl in *; rewrite Hs in *; eauto.
-Qed.
-
-Lemma inv_step_none : forall st q o, q_toks q <> [] -> tstep st (tok_at q 0) = None -> Inv st q o.
-Proof.
-  intros st [l e i] o Hne Hs; unfold tok_at in *; simpl in *. destruct l as [|t r]; [congruence|]. simpl in *.
-  split; intros; simpl in *; rewrite Hs in *; discriminate.
+  intros st st1 [l e i] o Hne Hs [H1 [H2 H3]]; unfold tok_at in *; simpl in *. destruct l as [|t r]; [congruence|]. simpl in *.
+  split; [|split]; intros.
+  - destruct (H1 _ _ H) as [I F]. split; [exact I|]. intros st' Ht. simpl in Ht. rewrite Hs in Ht. eauto.
+  - simpl in *. rewrite Hs in *. eauto.
+  - eauto.
 Qed.
 
 Lemma pblock_inv : forall f d acc q text k, KI d k -> curly_plain (q_toks q) = true ->
@@ -77,8 +76,8 @@ Lemma look_inv : forall (b : bool) st acc q kend k,
 Proof.
   intros b st acc q kend k H1 H2. unfold look. destruct (q_toks q) eqn:E.
   - destruct (q_err q); [triv|]. specialize (H2 eq_refl). destruct b; [|exact H2].
-    split; intros; [discriminate|]. inversion H; subst. rewrite E in H0. simpl in H0. inversion H0; subst.
-    exists st'. split; [reflexivity|exact H2].
+    split; [|split]; intros; [discriminate| |discriminate]. inversion H; subst. rewrite E in H0. simpl in H0. inversion H0; subst.
+    split; [simpl; lia|]. exists st'. split; [reflexivity|exact H2].
   - apply H1; discriminate.
 Qed.
 
@@ -256,8 +255,8 @@ Proof.
   induction f as [|f IH]; intros acc q sg Hc; [triv|].
   simpl ptop. apply (proj1 (main_inv c f)); [lia|exact Hc| |discriminate|].
   - red. intros e q' sg' He Hc'. rewrite He. apply IH; exact Hc'.
-  - intros _ Hnil. simpl. destruct (q_instr q); [triv|].
-    split; intros; [|discriminate]. rewrite Hnil in H0. simpl in H0. inversion H0; subst. reflexivity.
+  - intros _ Hnil. simpl. destruct (q_instr q) eqn:Ei; [split; [|split]; intros; try discriminate; exact Ei|].
+    split; [|split]; intros; [|discriminate|discriminate]. split; [exact Ei|]. intros st' Ht. rewrite Hnil in Ht. simpl in Ht. inversion Ht; subst. reflexivity.
 Qed.
 
 
@@ -281,7 +280,7 @@ Theorem done_implies_finished : forall c fuel text acc f st,
 Proof.
   intros c fuel text acc f st H Hc Ht. rewrite parse_whole_ptop in H.
   match type of H with ptop _ _ _ _ ?q = _ => destruct (ptop_inv c fuel [] q false Hc) as [H1 _] end.
-  eapply H1; [exact H|exact Ht].
+  eapply (proj2 (H1 _ _ H)); exact Ht.
 Qed.
 
 (* (B) a request for more input comes from an unfinished prefix or from the sign-symbol look-ahead:
@@ -292,10 +291,30 @@ Theorem more_implies_unfinished : forall c fuel text acc n toks k st,
   parse_whole true c fuel text = OSusp acc n toks k ->
   curly_plain (text_tokens text) = true ->
   trun st0 (text_tokens text) = Some st ->
-  exists sts, trun sts toks = Some st /\ sunf sts = true.
+  (length toks <= n)%nat /\ exists sts, trun sts toks = Some st /\ sunf sts = true.
 Proof.
   intros c fuel text acc n toks k st H Hc Ht. rewrite parse_whole_ptop in H.
-  match type of H with ptop _ _ _ _ ?q = _ => destruct (ptop_inv c fuel [] q false Hc) as [_ H2] end.
+  match type of H with ptop _ _ _ _ ?q = _ => destruct (ptop_inv c fuel [] q false Hc) as [_ [H2 _]] end.
   eapply H2; [exact H|exact Ht].
 Qed.
 
+
+(* a text accepted as complete does not end inside a string or char literal *)
+Theorem done_not_in_literal : forall c fuel text acc f,
+  parse_whole true c fuel text = ODone acc f -> curly_plain (text_tokens text) = true ->
+  in_string_or_rune (lres_state (lex_all init_lstate (text ++ nl))) = false.
+Proof.
+  intros c fuel text acc f H Hc. rewrite parse_whole_ptop in H.
+  match type of H with ptop _ _ _ _ ?q = _ => destruct (ptop_inv c fuel [] q false Hc) as [H1 _] end.
+  exact (proj1 (H1 _ _ H)).
+Qed.
+
+(* the other request for more input: the text ends inside a string or char literal *)
+Theorem more_top_in_literal : forall c fuel text acc f,
+  parse_whole true c fuel text = OMoreTop acc f -> curly_plain (text_tokens text) = true ->
+  in_string_or_rune (lres_state (lex_all init_lstate (text ++ nl))) = true.
+Proof.
+  intros c fuel text acc f H Hc. rewrite parse_whole_ptop in H.
+  match type of H with ptop _ _ _ _ ?q = _ => destruct (ptop_inv c fuel [] q false Hc) as [_ [_ H3]] end.
+  exact (H3 _ _ H).
+Qed.
